@@ -57,6 +57,7 @@ class World:
         self.text_rank = {}
         self.since_change = set()  # texts requested since last state-changing call? (probe)
         self.history_sig = []
+        self.n_requests = 0
         self.nontrivial = False
         res.sigs = {"histories": set()}
 
@@ -181,6 +182,11 @@ class World:
             diff = self._diff(got, ref)
             if diff is not None:
                 fs.extend(self._history_findings("parse", text, diff, got, ref))
+            else:
+                self.n_requests += 1
+                pr = self._pristine("parse", text, got)
+                if pr is not None:
+                    fs.extend(self._history_findings("parse", text, pr[0], got, pr[1], where="pristine-process"))
             if got[0] == "exc":
                 self.failed_before = True
                 self.seen.setdefault(text, set()).add("failed")
@@ -206,11 +212,32 @@ class World:
             diff = self._diff(got, ref)
             if diff is not None:
                 fs.extend(self._history_findings("tokenize", text, diff, got, ref))
+            else:
+                self.n_requests += 1
+                pr = self._pristine("tokenize", text, got)
+                if pr is not None:
+                    fs.extend(self._history_findings("tokenize", text, pr[0], got, pr[1], where="pristine-process"))
             self.seen.setdefault(text, set()).add("tokenize")
             self.res.events.append(f"tokenize {text!r} -> {got[0]}:{_h(got)}")
             self.history_sig.append(("tokenize", self._rank(text), got[0], bm))
             return fs
         raise core.HarnessError(f"unknown op {op!r}")
+
+    def _pristine(self, kind, text, got):
+        """Second reference: the same request answered in a pristine process."""
+        oracle = core.get_oracle("parser")
+        if oracle is None:
+            return None
+        p = self.cfg.get("pristine_p", 0.0)
+        if not self.res.replaying:
+            if p <= 0 or core.derive("pristine", self.cfg.get("oracle_seed", 0), self.n_requests) % 1000 >= p * 1000:
+                return None
+        self.res.stats["probe.checked_against_pristine_process"] += 1
+        ref = oracle.ask((kind, text))
+        d = self._diff(got, ref)
+        if d is None:
+            return None
+        return d, ref
 
     def _diff(self, got, ref):
         if got[0] == "hang" or ref[0] == "hang":
@@ -225,16 +252,20 @@ class World:
             return None
         return None if got[1] == ref[1] else "result"
 
-    def _history_findings(self, op, text, diff, got, ref):
+    def _history_findings(self, op, text, diff, got, ref, where="fresh-parser"):
         def brief(o):
             if o[0] == "exc":
                 return f"{o[1]}({o[2][:40]})"
             return f"{o[0]}:{str(o[1])[:120]}"
+        who = "a fresh parser" if where == "fresh-parser" else "a fresh parser in a pristine process"
         detail = (f"{op}({text!r}) on the used parser gave {brief(got)}, "
-                  f"a fresh parser gives {brief(ref)}")
-        fs = [Finding("C12", {"clause": "history", "op": op, "diff": diff}, detail)]
+                  f"{who} gives {brief(ref)}")
+        key = {"clause": "history", "op": op, "diff": diff}
+        if where != "fresh-parser":
+            key["ref"] = where
+        fs = [Finding("C12", key, detail)]
         if self.failed_before:
-            fs.append(Finding("C10", {"clause": "sticky-state", "op": op, "diff": diff},
+            fs.append(Finding("C10", dict(key, clause="sticky-state"),
                               "after an earlier failed parse: " + detail))
         return fs
 
@@ -295,6 +326,19 @@ class ParserSim:
     def new_world(self, cfg, res):
         return World(cfg, res)
 
+    @staticmethod
+    def pristine_handler(request):
+        """Runs in a grandchild of a zygote forked before any code under test ran."""
+        kind, text = request
+
+        class _R:
+            pass
+        w = World.__new__(World)
+        from mathy_core.parser import ExpressionParser
+        if kind == "parse":
+            return World._outcome_parse(w, ExpressionParser(), text)[0]
+        return World._outcome_tokenize(w, ExpressionParser(), text)[0]
+
     # ------------------------------------------------------------------
     def draw_config(self, rng, prop, tier, stratum, idx):
         gcfg = {
@@ -312,7 +356,8 @@ class ParserSim:
             # variable alphabet of the session (incl. letters that can spell 'sgn' by juxtaposition)
             "vars": "".join(rng.sample("abcdefghijklmnopqrstuvwxyz", rng.choice([2, 3, 5, 8]))) + rng.choice(["", "x", "sgn", "e"]),
         }
-        cfg = {"prop": prop, "stratum": stratum, "gen": gcfg}
+        cfg = {"prop": prop, "stratum": stratum, "gen": gcfg,
+               "pristine_p": rng.choice([0.0, 0.02, 0.05, 0.2]), "oracle_seed": rng.randrange(2 ** 32)}
         if stratum == "sweep":
             cfg["script"] = self._sweep_script(rng, gcfg, idx)
             return cfg
@@ -440,7 +485,8 @@ class ParserSim:
         return ["parse_served_from_cache", "tokenize_served_from_cache", "repeat_request",
                 "tokenize_after_parse", "parse_after_tokenize", "request_after_clear",
                 "request_after_failed_parse_same_text", "request_after_edit_of_its_list",
-                "request_for_prefix_of_failed_text", "request_after_any_failure"]
+                "request_for_prefix_of_failed_text", "request_after_any_failure",
+                "checked_against_pristine_process"]
 
     def components(self, prop):
         return {
@@ -449,6 +495,9 @@ class ParserSim:
             "simulated": ["client issuing calls and editing handed-out token lists",
                           "seeded scheduler of call order / text choice / abort placement"],
             "reference_models": ["fresh ExpressionParser() per request (real code, no history)",
+                                 "the same request answered in a pristine process (grandchild of a zygote forked "
+                                 "before any code under test ran) for a seeded sample of requests and for every "
+                                 "request when replaying",
                                  "own scanner deciding when ValueError is permitted",
                                  "own link audit of returned trees"],
             "stubbed": [],
